@@ -37,7 +37,7 @@ def PartOk (dim : Nat) (name : Str) (p : Part) : Prop :=
 
 /-- an attribute set of a mesh part with `nv` vertices -/
 def AttrSetOk (nv : Nat) (an : Str) (a : Attr) : Prop :=
-  NameOk an ∧ 0 < a.dim ∧ a.dim < 2 ^ 64 ∧ a.vals.length = nv ∧ ∀ v ∈ a.vals, v.length = a.dim
+  NameOk an ∧ 0 < a.dim ∧ a.dim ≤ 2 ^ 31 - 1 ∧ a.vals.length = nv ∧ ∀ v ∈ a.vals, v.length = a.dim
 
 /-- stage C mesh parts: mappings, optionally an own (full) topology, attribute sets; no chart -/
 def PartOkFull (sh : Shape) (dim : Nat) (name : Str) (p : Part) : Prop :=
@@ -53,7 +53,8 @@ def PartOkFull (sh : Shape) (dim : Nat) (name : Str) (p : Part) : Prop :=
   (∀ idx ∈ p.maps, ∀ i ∈ idx, i < 2 ^ 64) ∧
   NameOk name ∧
   (∀ na ∈ p.attrs, AttrSetOk (p.sizes.getD 0 0) na.1 na.2) ∧
-  p.attrs.Pairwise (fun a b => strLt a.1 b.1 = true)
+  p.attrs.Pairwise (fun a b => strLt a.1 b.1 = true) ∧
+  (p.hasTopo = true → zeroBelow p.sizes = false)
 
 /-- stage B partitions -/
 def PartitionOk (p : Partition) : Prop :=
@@ -62,7 +63,8 @@ def PartitionOk (p : Partition) : Prop :=
   (0 ≤ p.level ∧ p.level < 2 ^ 31) ∧
   p.nr < 2 ^ 31 ∧ p.ne < 2 ^ 31 ∧
   p.patches.length = p.nr ∧
-  (∀ el ∈ p.patches, el.Pairwise (· < ·) ∧ ∀ e ∈ el, e < p.ne)
+  (∀ el ∈ p.patches, el.Pairwise (· < ·) ∧ ∀ e ∈ el, e < p.ne) ∧
+  (p.patches.map List.length).sum = p.ne
 
 end FeatModel.C11
 
@@ -304,6 +306,7 @@ theorem scan_part_line (name : Str) (hasTopo : Bool) (sizes : List Nat) (hn : Na
 theorem partCreate_printed (sh : Shape) (dim : Nat) (stack : List Frame) (mesh : Option Mesh)
     (parts : List (Str × Part)) (pts : List Partition) (line : Nat) (name : Str) (hasTopo : Bool)
     (sizes : List Nat) (hlen : sizes.length = dim + 1) (h64 : ∀ s ∈ sizes, s < 2 ^ 64)
+    (hzb : hasTopo = true → zeroBelow sizes = false)
     (hfresh : mapFind strLt name parts = none) :
     partCreate (mkSt sh dim stack ⟨mesh, parts, pts⟩) line (partMarkup name hasTopo sizes) =
       .ok (⟨name, [], topoTy hasTopo, sizes, List.replicate (dim + 1) none, List.replicate dim none, []⟩, [], []) := by
@@ -349,11 +352,14 @@ theorem partCreate_printed (sh : Shape) (dim : Nat) (stack : List Frame) (mesh :
   rw [a1, a2, a3, a4, a5]
   simp only [hcl, mkSt, hfresh, hroot, htt, hded, splitWs_joinSp_showNat, List.length_map, hlen,
     readIndex_sizes h64]
-  simp
+  cases hasTopo with
+  | false => simp [topoTy]
+  | true => simp [topoTy, hzb rfl]
 
 theorem openM_part (sh : Shape) (dim : Nat) (mesh : Option Mesh)
     (parts : List (Str × Part)) (pts : List Partition) (line : Nat) (name : Str) (hasTopo : Bool)
     (sizes : List Nat) (hlen : sizes.length = dim + 1) (h64 : ∀ s ∈ sizes, s < 2 ^ 64)
+    (hzb : hasTopo = true → zeroBelow sizes = false)
     (hfresh : mapFind strLt name parts = none) :
     openM (mkSt sh dim [Frame.root] ⟨mesh, parts, pts⟩) line (partMarkup name hasTopo sizes) =
       .ok (mkSt sh dim [Frame.part ⟨name, [], topoTy hasTopo, sizes, List.replicate (dim + 1) none,
@@ -361,7 +367,7 @@ theorem openM_part (sh : Shape) (dim : Nat) (mesh : Option Mesh)
   have hc : checkAttribs line (specOf "MeshPart") (partMarkup name hasTopo sizes).attrs = .ok () := by
     unfold partMarkup
     simp [checkAttribs, specOf]
-  have hm := partCreate_printed sh dim [Frame.root] mesh parts pts line name hasTopo sizes hlen h64 hfresh
+  have hm := partCreate_printed sh dim [Frame.root] mesh parts pts line name hasTopo sizes hlen h64 hzb hfresh
   have hn : String.ofList (partMarkup name hasTopo sizes).name = "MeshPart" := String_ofList_toList _
   have hcl : (partMarkup name hasTopo sizes).closed = false := rfl
   generalize hst : mkSt sh dim [Frame.root] ⟨mesh, parts, pts⟩ = st at hm ⊢
@@ -712,7 +718,7 @@ theorem scan_attr_line (an : Str) (d : Nat) (hn : NameOk an) :
   rw [mapInsert_lt (by decide)]
 
 theorem openM_attribute (sh : Shape) (dim : Nat) (p : PartSt) (rs : List Frame) (node : Node) (line : Nat)
-    (an : Str) (d : Nat) (hd0 : 0 < d) (hd64 : d < 2 ^ 64) :
+    (an : Str) (d : Nat) (hd0 : 0 < d) (hd31 : d ≤ 2 ^ 31 - 1) :
     openM (mkSt sh dim (Frame.part p :: rs) node) line
       (⟨"Attribute".toList, [("dim".toList, showNat d), ("name".toList, an)], false, false⟩ : Markup) =
       .ok (mkSt sh dim (Frame.attr an d (p.sizes.getD 0 0) [] :: Frame.part p :: rs) node) := by
@@ -736,9 +742,13 @@ theorem openM_attribute (sh : Shape) (dim : Nat) (p : PartSt) (rs : List Frame) 
   have ha : m.attrs = [("dim".toList, showNat d), ("name".toList, an)] := by rw [← hmm]
   have hcl : m.closed = false := by rw [← hmm]
   have h2 : (d == 0) = false := by simp; omega
+  have h3 : ¬ (d > 2 ^ 31 - 1) := by omega
+  have hd64 : d < 2 ^ 64 := by
+    have : (2 : Nat) ^ 31 - 1 < 2 ^ 64 := by decide
+    omega
   unfold openM
   rw [hstack]
-  simp only [hn, ha, hc, hcl, a1, a2, readIndex_showNat d hd64, h2]
+  simp only [hn, ha, hc, hcl, a1, a2, readIndex_showNat d hd64, h2, h3]
   simp [← hst, mkSt]
 
 theorem contentM_attr_row (sh : Shape) (dim d count line : Nat) (an : Str) (acc : List (List Rat))
@@ -787,8 +797,8 @@ theorem Run_attr_block (sh : Shape) (dim : Nat) (p : PartSt) (rs : List Frame) (
       (mkSt sh dim (Frame.part p :: rs) node) (b :: below)
       (mkSt sh dim (Frame.part { p with attrs := mapInsert strLt an a p.attrs } :: rs) node) := by
   obtain ⟨d, vals⟩ := a
-  obtain ⟨hname, hd0, hd64, hlen, hrows⟩ := ha
-  simp only at hd0 hd64 hlen hrows
+  obtain ⟨hname, hd0, hd31, hlen, hrows⟩ := ha
+  simp only at hd0 hd31 hlen hrows
   unfold attrBlock
   simp only
   have e1 : sp 4 ++ "<Attribute name=".toList ++ q an ++ " dim=".toList ++ q (showNat d) ++ ">".toList =
@@ -797,7 +807,7 @@ theorem Run_attr_block (sh : Shape) (dim : Nat) (p : PartSt) (rs : List Frame) (
   have e2 : "</Attribute>".toList = '<' :: (('/' :: "Attribute".toList) ++ ['>']) := by decide
   rw [e1, e2]
   have r1 := Run_open_line (k := 4) (by decide) (scan_attr_line an d hname) rfl rfl
-    (fun line => openM_attribute sh dim p rs node line an d hd0 hd64) (b :: below)
+    (fun line => openM_attribute sh dim p rs node line an d hd0 hd31) (b :: below)
   have r2 := Run_attr_rows sh dim d (p.sizes.getD 0 0) an (Frame.part p :: rs) node
     ("Attribute".toList :: b :: below) hd0 vals [] hrows (by simp [hlen])
   have r3 := Run_close_line (k := 4) (nm := "Attribute".toList) (by decide)
@@ -936,8 +946,8 @@ theorem Run_writePart (sh : Shape) (dim : Nat) (mesh : Option Mesh) (parts : Lis
     Run (writePart name p) (b :: below) (mkSt sh dim [Frame.root] ⟨mesh, parts, pts⟩) (b :: below)
       (mkSt sh dim [Frame.root] ⟨mesh, parts ++ [(name, p)], pts⟩) := by
   obtain ⟨chart, hasTopo, sizes, maps, topo, attrs⟩ := p
-  obtain ⟨h1, hsl, hml, hlens, htl, htopo1, htopo0, hs64, hm64, hname, hattrs, hasorted⟩ := hp
-  simp only at h1 hsl hml hlens htl htopo1 htopo0 hs64 hm64 hattrs hasorted
+  obtain ⟨h1, hsl, hml, hlens, htl, htopo1, htopo0, hs64, hm64, hname, hattrs, hasorted, hzb⟩ := hp
+  simp only at h1 hsl hml hlens htl htopo1 htopo0 hs64 hm64 hattrs hasorted hzb
   subst h1
   rw [writePart_eq]
   have hbound : sizes.getD 0 0 ≤ 2 ^ 64 := by
@@ -948,7 +958,7 @@ theorem Run_writePart (sh : Shape) (dim : Nat) (mesh : Option Mesh) (parts : Lis
       .ok (some (partMarkup name hasTopo sizes)) :=
     scan_part_line name hasTopo sizes hname
   have r1 := Run_open_line (k := 2) (a := 'M') (by decide) hs rfl rfl
-    (fun line => openM_part sh dim mesh parts pts line name hasTopo sizes hsl hs64 (mapFind_none _ _ hfresh))
+    (fun line => openM_part sh dim mesh parts pts line name hasTopo sizes hsl hs64 hzb (mapFind_none _ _ hfresh))
     (b :: below)
   have r2 := Run_map_blocks sh dim name (topoTy hasTopo) sizes (List.replicate dim none) [] [Frame.root]
     ⟨mesh, parts, pts⟩ "MeshPart".toList (b :: below) maps 0 [] rfl (by rw [hml]; omega)
@@ -1060,11 +1070,11 @@ theorem scan_patch_line (r n : Nat) :
   simp only [mapInsert, h1, h2, Bool.false_eq_true, if_false, if_true]
 
 theorem openM_patch (sh : Shape) (dim : Nat) (name : Str) (prio level : Int) (nr ne : Nat)
-    (patches : List (List Nat)) (rs : List Frame) (node : Node) (line r n : Nat)
-    (hr : r < nr) (hr64 : r < 2 ^ 64) (hn64 : n < 2 ^ 64) :
-    openM (mkSt sh dim (Frame.partition name prio level nr ne patches :: rs) node) line
+    (patches : List (List Nat)) (hv : List Bool) (rs : List Frame) (node : Node) (line r n : Nat)
+    (hr : r < nr) (hr64 : r < 2 ^ 64) (hn64 : n < 2 ^ 64) (hfalse : hv.getD r false = false) :
+    openM (mkSt sh dim (Frame.partition name prio level nr ne patches hv :: rs) node) line
       (⟨"Patch".toList, [("rank".toList, showNat r), ("size".toList, showNat n)], false, false⟩ : Markup) =
-      .ok (mkSt sh dim (Frame.patch r n ne 0 [] :: Frame.partition name prio level nr ne patches :: rs) node) := by
+      .ok (mkSt sh dim (Frame.patch r n ne 0 [] :: Frame.partition name prio level nr ne patches hv :: rs) node) := by
   have hc : checkAttribs line (specOf "Patch") [("rank".toList, showNat r), ("size".toList, showNat n)] = .ok () := by
     simp [checkAttribs, specOf]
   have s1 : strLt "rank".toList "rank".toList = false := by decide
@@ -1077,17 +1087,17 @@ theorem openM_patch (sh : Shape) (dim : Nat) (name : Str) (prio level : Int) (nr
   have a2 : attrOf (⟨"Patch".toList, [("rank".toList, showNat r), ("size".toList, showNat n)], false, false⟩ : Markup)
       "size" = some (showNat n) := by
     simp only [attrOf, mapFind, s2, s3, s4]; rfl
-  generalize hst : mkSt sh dim (Frame.partition name prio level nr ne patches :: rs) node = st
+  generalize hst : mkSt sh dim (Frame.partition name prio level nr ne patches hv :: rs) node = st
   generalize hmm : (⟨"Patch".toList, [("rank".toList, showNat r), ("size".toList, showNat n)], false, false⟩ : Markup)
     = m at a1 a2
-  have hstack : st.stack = Frame.partition name prio level nr ne patches :: rs := by rw [← hst]; rfl
+  have hstack : st.stack = Frame.partition name prio level nr ne patches hv :: rs := by rw [← hst]; rfl
   have hn : String.ofList m.name = "Patch" := by rw [← hmm]; exact String_ofList_toList _
   have ha : m.attrs = [("rank".toList, showNat r), ("size".toList, showNat n)] := by rw [← hmm]
   have hcl : m.closed = false := by rw [← hmm]
   have h2 : ¬ r ≥ nr := by omega
   unfold openM
   rw [hstack]
-  simp only [hn, ha, hc, hcl, a1, a2, readIndex_showNat r hr64, readIndex_showNat n hn64, h2]
+  simp only [hn, ha, hc, hcl, a1, a2, readIndex_showNat r hr64, readIndex_showNat n hn64, h2, hfalse]
   simp [← hst, mkSt]
 
 theorem contentM_patch_row (sh : Shape) (dim rank size ne read line : Nat) (elems : List Nat) (rs : List Frame)
@@ -1123,12 +1133,13 @@ theorem Run_patch_rows (sh : Shape) (dim rank size ne : Nat) (rs : List Frame) (
     exact step_content h1 h2 h3 h4 hc
 
 theorem closeTop_patch_frame (sh : Shape) (dim rank size ne read : Nat) (elems : List Nat) (name : Str)
-    (prio level : Int) (nr ne' : Nat) (patches : List (List Nat)) (rs : List Frame) (node : Node) (line : Nat)
-    (h : size ≤ read) :
+    (prio level : Int) (nr ne' : Nat) (patches : List (List Nat)) (hv : List Bool) (rs : List Frame) (node : Node)
+    (line : Nat) (h : size ≤ read) :
     closeTop (mkSt sh dim (Frame.patch rank size ne read elems ::
-        Frame.partition name prio level nr ne' patches :: rs) node) line =
+        Frame.partition name prio level nr ne' patches hv :: rs) node) line =
       .ok (mkSt sh dim (Frame.partition name prio level nr ne'
-        (patches.set rank (elems.foldl (fun acc e => setInsert e acc) (patches.getD rank []))) :: rs) node) := by
+        (patches.set rank (elems.foldl (fun acc e => setInsert e acc) (patches.getD rank [])))
+        (hv.set rank true) :: rs) node) := by
   simp [closeTop, mkSt, Nat.not_lt.mpr h]
 
 def patchBlock (r : Nat) (el : List Nat) : List Str :=
@@ -1140,12 +1151,13 @@ def patchBlocks : Nat → List (List Nat) → List Str
   | k, el :: rest => patchBlock k el ++ patchBlocks (k + 1) rest
 
 theorem Run_patch_block (sh : Shape) (dim : Nat) (name : Str) (prio level : Int) (nr ne : Nat)
-    (patches : List (List Nat)) (rs : List Frame) (node : Node) (b : Str) (below : List Str)
+    (patches : List (List Nat)) (hv : List Bool) (rs : List Frame) (node : Node) (b : Str) (below : List Str)
     (r : Nat) (el : List Nat) (hr : r < nr) (hnr : nr < 2 ^ 31) (hne : ne < 2 ^ 31)
-    (hempty : patches.getD r [] = []) (hsorted : el.Pairwise (· < ·)) (hb : ∀ e ∈ el, e < ne) :
+    (hempty : patches.getD r [] = []) (hfalse : hv.getD r false = false)
+    (hsorted : el.Pairwise (· < ·)) (hb : ∀ e ∈ el, e < ne) :
     Run (patchBlock r el) (b :: below)
-      (mkSt sh dim (Frame.partition name prio level nr ne patches :: rs) node) (b :: below)
-      (mkSt sh dim (Frame.partition name prio level nr ne (patches.set r el) :: rs) node) := by
+      (mkSt sh dim (Frame.partition name prio level nr ne patches hv :: rs) node) (b :: below)
+      (mkSt sh dim (Frame.partition name prio level nr ne (patches.set r el) (hv.set r true) :: rs) node) := by
   have hlen : el.length ≤ ne := by
     have := sorted_length_le el 0 ne hsorted (fun x hx => ⟨by omega, hb x hx⟩)
     omega
@@ -1158,16 +1170,33 @@ theorem Run_patch_block (sh : Shape) (dim : Nat) (name : Str) (prio level : Int)
   have e2 : "</Patch>".toList = '<' :: (('/' :: "Patch".toList) ++ ['>']) := by decide
   rw [e1, e2]
   have r1 := Run_open_line (k := 4) (by decide) (scan_patch_line r el.length) rfl rfl
-    (fun line => openM_patch sh dim name prio level nr ne patches rs node line r el.length hr (by omega) (by omega))
+    (fun line => openM_patch sh dim name prio level nr ne patches hv rs node line r el.length hr (by omega) (by omega) hfalse)
     (b :: below)
-  have r2 := Run_patch_rows sh dim r el.length ne (Frame.partition name prio level nr ne patches :: rs) node
+  have r2 := Run_patch_rows sh dim r el.length ne (Frame.partition name prio level nr ne patches hv :: rs) node
     ("Patch".toList :: b :: below) el [] (fun e he => ⟨hb e he, by have := hb e he; omega⟩) (by simp)
   have r3 := Run_close_line (k := 4) (nm := "Patch".toList) (by decide)
     (fun line => closeTop_patch_frame sh dim r el.length ne ([] ++ el).length ([] ++ el) name prio level nr ne
-      patches rs node line (by simp)) b below
+      patches hv rs node line (by simp)) b below
   rw [hempty, foldl_setInsert _ [] (by simpa using hsorted)] at r3
   have := Run.append (Run.append r1 r2) r3
   simpa using this
+
+theorem getD_replicate_true_append (k : Nat) (l : List Bool) :
+    (List.replicate k true ++ false :: l).getD k false = false := by
+  induction k with
+  | zero => rfl
+  | succ k ih => simp [List.replicate_succ]
+
+theorem set_replicate_true_append (k : Nat) (l : List Bool) :
+    (List.replicate k true ++ false :: l).set k true = List.replicate (k + 1) true ++ l := by
+  induction k with
+  | zero => rfl
+  | succ k ih => simp only [List.replicate_succ, List.cons_append, List.set_cons_succ, ih]
+
+theorem any_not_replicate_true (n : Nat) : (List.replicate n true).any (fun b => !b) = false := by
+  induction n with
+  | zero => rfl
+  | succ n ih => simp [List.replicate_succ]
 
 theorem Run_patch_blocks (sh : Shape) (dim : Nat) (name : Str) (prio level : Int) (nr ne : Nat)
     (rs : List Frame) (node : Node) (b : Str) (below : List Str) (hnr : nr < 2 ^ 31) (hne : ne < 2 ^ 31)
@@ -1175,9 +1204,11 @@ theorem Run_patch_blocks (sh : Shape) (dim : Nat) (name : Str) (prio level : Int
     ∀ (k : Nat) (done : List (List Nat)), done.length = k → k + todo.length ≤ nr →
     (∀ el ∈ todo, el.Pairwise (· < ·) ∧ ∀ e ∈ el, e < ne) →
     Run (patchBlocks k todo) (b :: below)
-      (mkSt sh dim (Frame.partition name prio level nr ne (done ++ List.replicate todo.length []) :: rs) node)
+      (mkSt sh dim (Frame.partition name prio level nr ne (done ++ List.replicate todo.length [])
+        (List.replicate k true ++ List.replicate todo.length false) :: rs) node)
       (b :: below)
-      (mkSt sh dim (Frame.partition name prio level nr ne (done ++ todo) :: rs) node) := by
+      (mkSt sh dim (Frame.partition name prio level nr ne (done ++ todo)
+        (List.replicate (k + todo.length) true) :: rs) node) := by
   induction todo with
   | nil =>
     intro k done _ _ _
@@ -1187,12 +1218,15 @@ theorem Run_patch_blocks (sh : Shape) (dim : Nat) (name : Str) (prio level : Int
     subst hk
     have hP0 := hP t (by simp)
     have r1 := Run_patch_block sh dim name prio level nr ne (done ++ [] :: List.replicate ts.length [])
-      rs node b below done.length t (by simp at hle; omega) hnr hne (getD_append_length _ _ _ _) hP0.1 hP0.2
-    rw [set_append_length] at r1
+      (List.replicate done.length true ++ false :: List.replicate ts.length false)
+      rs node b below done.length t (by simp at hle; omega) hnr hne (getD_append_length _ _ _ _)
+      (getD_replicate_true_append _ _) hP0.1 hP0.2
+    rw [set_append_length, set_replicate_true_append] at r1
     have r2 := ih (done.length + 1) (done ++ [t]) (by simp) (by simp at hle; omega)
       (fun el hel => hP el (by simp [hel]))
     have e : done ++ [t] ++ List.replicate ts.length [] = done ++ t :: List.replicate ts.length [] := by simp
-    rw [e] at r2
+    have e2 : done.length + 1 + ts.length = done.length + (t :: ts).length := by simp; omega
+    rw [e, e2] at r2
     have := Run.append r1 r2
     simpa [patchBlocks, List.replicate_succ] using this
 
@@ -1360,7 +1394,7 @@ theorem partitionCreate_printed (line : Nat) (name : Str) (prio level : Int) (nr
     (hprio : -(2 ^ 31 : Int) ≤ prio ∧ prio < 2 ^ 31) (hlevel : 0 ≤ level ∧ level < 2 ^ 31)
     (hnr : nr < 2 ^ 31) (hne : ne < 2 ^ 31) :
     partitionCreate line (ptMarkup name prio level nr ne) =
-      .ok (Frame.partition name prio level nr ne (List.replicate nr [])) := by
+      .ok (Frame.partition name prio level nr ne (List.replicate nr []) (List.replicate nr false)) := by
   obtain ⟨a1, a2, a3, a4⟩ := pt_attrOf name prio level nr ne
   have hsplit : splitWs (szStr nr ne) = [showNat nr, showNat ne] := by
     rw [szStr_eq, splitWs_joinSp_showNat]; rfl
@@ -1369,12 +1403,14 @@ theorem partitionCreate_printed (line : Nat) (name : Str) (prio level : Int) (nr
   rw [a1, a2, a3, a4]
   simp only [hsplit, readInt_showNat31 nr hnr, readInt_showNat31 ne hne, readInt_showInt prio hprio,
     readInt_showInt level ⟨by omega, hlevel.2⟩, hl, if_false, Int.toNat_natCast]
+  simp
+  omega
 
 theorem openM_partition (sh : Shape) (dim : Nat) (node : Node) (line : Nat) (name : Str) (prio level : Int)
     (nr ne : Nat) (hprio : -(2 ^ 31 : Int) ≤ prio ∧ prio < 2 ^ 31) (hlevel : 0 ≤ level ∧ level < 2 ^ 31)
     (hnr : nr < 2 ^ 31) (hne : ne < 2 ^ 31) :
     openM (mkSt sh dim [Frame.root] node) line (ptMarkup name prio level nr ne) =
-      .ok (mkSt sh dim [Frame.partition name prio level nr ne (List.replicate nr []), Frame.root] node) := by
+      .ok (mkSt sh dim [Frame.partition name prio level nr ne (List.replicate nr []) (List.replicate nr false), Frame.root] node) := by
   have hc : checkAttribs line (specOf "Partition") (ptMarkup name prio level nr ne).attrs = .ok () := by
     unfold ptMarkup ptAttrs
     cases name <;> simp [checkAttribs, specOf]
@@ -1390,11 +1426,12 @@ theorem openM_partition (sh : Shape) (dim : Nat) (node : Node) (line : Nat) (nam
   simp [← hst, mkSt]
 
 theorem closeTop_partition_frame (sh : Shape) (dim : Nat) (name : Str) (prio level : Int) (nr ne : Nat)
-    (patches : List (List Nat)) (rs : List Frame) (mesh : Option Mesh) (parts : List (Str × Part))
-    (pts : List Partition) (line : Nat) :
-    closeTop (mkSt sh dim (Frame.partition name prio level nr ne patches :: rs) ⟨mesh, parts, pts⟩) line =
+    (patches : List (List Nat)) (hv : List Bool) (rs : List Frame) (mesh : Option Mesh) (parts : List (Str × Part))
+    (pts : List Partition) (line : Nat) (hall : hv.any (fun b => !b) = false)
+    (hsum : (patches.map List.length).sum = ne) :
+    closeTop (mkSt sh dim (Frame.partition name prio level nr ne patches hv :: rs) ⟨mesh, parts, pts⟩) line =
       .ok (mkSt sh dim rs ⟨mesh, parts, pts ++ [⟨name, prio, level, nr, ne, patches⟩]⟩) := by
-  simp [closeTop, mkSt]
+  simp only [closeTop, mkSt, hall, hsum, bne_self_eq_false, Bool.false_eq_true, if_false]
 
 /-! ## Part 10: a whole partition, all partitions -/
 
@@ -1412,8 +1449,8 @@ theorem Run_writePartition (sh : Shape) (dim : Nat) (mesh : Option Mesh) (parts 
       (mkSt sh dim [Frame.root] ⟨mesh, parts, pts ++ [p]⟩) := by
   rw [writePartition_eq]
   obtain ⟨name, prio, level, nr, ne, patches⟩ := p
-  obtain ⟨hname, hprio, hlevel, hnr, hne, hlen, hpat⟩ := hp
-  simp only at hname hprio hlevel hnr hne hlen hpat ⊢
+  obtain ⟨hname, hprio, hlevel, hnr, hne, hlen, hpat, hsum⟩ := hp
+  simp only at hname hprio hlevel hnr hne hlen hpat hsum ⊢
   have hs := scan_partition_line name prio level nr ne hname
   have r1 := Run_open_line (k := 2) (a := 'P') (by decide) hs rfl rfl
     (fun line => openM_partition sh dim ⟨mesh, parts, pts⟩ line name prio level nr ne hprio hlevel hnr hne)
@@ -1422,7 +1459,8 @@ theorem Run_writePartition (sh : Shape) (dim : Nat) (mesh : Option Mesh) (parts 
     "Partition".toList (b :: below) hnr hne patches 0 [] rfl (by omega) hpat
   rw [hlen] at r2
   have r3 := Run_close_line (k := 2) (nm := "Partition".toList) (by decide)
-    (fun line => closeTop_partition_frame sh dim name prio level nr ne patches [Frame.root] mesh parts pts line)
+    (fun line => closeTop_partition_frame sh dim name prio level nr ne patches (List.replicate (0 + nr) true)
+      [Frame.root] mesh parts pts line (any_not_replicate_true _) hsum)
     b below
   exact Run.append (Run.append r1 r2) r3
 
@@ -1517,7 +1555,7 @@ theorem nl_partsLines (sh : Shape) (dim : Nat) (parts : List (Str × Part))
   simp only [partsLines, List.mem_flatten, List.mem_map] at hl
   obtain ⟨ls, ⟨⟨nm, p⟩, hnp, rfl⟩, hl⟩ := hl
   obtain ⟨chart, hasTopo, sizes, maps, topo, attrs⟩ := p
-  obtain ⟨h1, -, -, -, -, -, -, -, -, hname, hattrs, -⟩ := hp _ hnp
+  obtain ⟨h1, -, -, -, -, -, -, -, -, hname, hattrs, -, -⟩ := hp _ hnp
   simp only at h1 hattrs hl
   subst h1
   rw [writePart_eq] at hl
@@ -1600,6 +1638,8 @@ structure NodeOk (sh : Shape) (dim : Nat) (m : Mesh) (parts : List (Str × Part)
   hp : ∀ np ∈ parts, PartOkFull sh dim np.1 np.2
   hsorted : parts.Pairwise (fun a b => strLt a.1 b.1 = true)
   hpt : ∀ p ∈ pts, PartitionOk p
+  hzb : zeroBelow m.sizes = false
+  hmap : mapOutOfRange ⟨some m, parts, pts⟩ = false
 
 theorem nl_bodyLines {sh : Shape} {dim : Nat} (hs : supported sh (dim : Int) (dim : Int) = true) {m : Mesh}
     {parts : List (Str × Part)} {pts : List Partition} (h : NodeOk sh dim m parts pts) :
@@ -1631,7 +1671,7 @@ theorem Run_body {sh : Shape} {dim : Nat} (hs : supported sh (dim : Int) (dim : 
       (mkSt sh dim [Frame.root] { mesh := some m, parts := parts, partitions := pts }) := by
   have hdim : dim + 1 < 2 ^ 64 := by
     rcases supported_cases hs with ⟨-, rfl⟩ | ⟨-, rfl⟩ | ⟨-, rfl⟩ | ⟨-, rfl⟩ | ⟨-, rfl⟩ <;> decide
-  have r1 := Run_writeMesh hs m h.hwf h.h64 b below
+  have r1 := Run_writeMesh hs m h.hwf h.h64 h.hzb b below
   have r2 := Run_parts sh dim (some m) [] hdim b below parts [] h.hp (by simpa using h.hsorted)
   have r3 := Run_partitions sh dim (some m) parts b below pts [] h.hpt
   have := Run.append (Run.append r1 r2) r3
@@ -1660,7 +1700,7 @@ theorem parseBody_node {sh : Shape} {dim : Nat} (hs : supported sh (dim : Int) (
   unfold mkSt emptyNode at hl
   unfold parseBody
   simp only [hc, hn, hl]
-  simp
+  simp [h.hmap]
 
 theorem parse_print_of_NodeOk {sh : Shape} {dim : Nat} (hs : supported sh (dim : Int) (dim : Int) = true) {m : Mesh}
     {parts : List (Str × Part)} {pts : List Partition} (h : NodeOk sh dim m parts pts) :
@@ -1674,10 +1714,11 @@ theorem parse_print_of_NodeOk {sh : Shape} {dim : Nat} (hs : supported sh (dim :
 theorem PartOk.toFull {sh : Shape} {dim : Nat} {name : Str} {p : Part} (h : PartOk dim name p) :
     PartOkFull sh dim name p := by
   obtain ⟨h1, h2, h3, hsl, hml, hlens, htopo, hs64, hm64, hname⟩ := h
-  refine ⟨h1, hsl, hml, hlens, by rw [htopo]; simp, ?_, fun _ => htopo, hs64, hm64, hname, ?_, ?_⟩
+  refine ⟨h1, hsl, hml, hlens, by rw [htopo]; simp, ?_, fun _ => htopo, hs64, hm64, hname, ?_, ?_, ?_⟩
   · intro ht; rw [h2] at ht; exact absurd ht (by decide)
   · rw [h3]; intro na hna; exact absurd hna (by simp)
   · rw [h3]; exact List.Pairwise.nil
+  · intro ht; rw [h2] at ht; exact absurd ht (by decide)
 
 /-! ## Part 13: files without a root mesh (`reparse`) -/
 
@@ -1754,7 +1795,7 @@ theorem parseBody_nomesh (sh : Shape) (dim : Nat) (hdim : dim + 1 < 2 ^ 64) (par
   unfold mkSt emptyNode at hl
   unfold parseBody
   simp only [hc, hn, hl]
-  simp
+  simp [mapOutOfRange]
 
 end FeatModel.C11.RT2
 
@@ -1769,12 +1810,14 @@ theorem parse_print_parts (sh : Shape) (dim : Nat) (m : Mesh) (parts : List (Str
     (hs : supported sh (dim : Int) (dim : Int) = true)
     (hwf : m.wf sh dim = true)
     (h64 : ∀ s ∈ m.sizes, s < 2 ^ 64)
+    (hzb : zeroBelow m.sizes = false)
     (hp : ∀ np ∈ parts, PartOk dim np.1 np.2)
-    (hsorted : parts.Pairwise (fun a b => strLt a.1 b.1 = true)) :
+    (hsorted : parts.Pairwise (fun a b => strLt a.1 b.1 = true))
+    (hmap : mapOutOfRange ⟨some m, parts, []⟩ = false) :
     parseMeshFile (printMeshFile sh dim { mesh := some m, parts := parts, partitions := [] })
       = .ok sh dim { mesh := some m, parts := parts, partitions := [] } :=
   RT2.parse_print_of_NodeOk hs
-    ⟨hwf, h64, fun np h => RT2.PartOk.toFull (hp np h), hsorted, fun _ h => absurd h (by simp)⟩
+    ⟨hwf, h64, fun np h => RT2.PartOk.toFull (hp np h), hsorted, fun _ h => absurd h (by simp), hzb, hmap⟩
 
 /-- **Stage B: parse ∘ print = id** for a file with a root mesh, mesh parts with mappings, and partitions -/
 theorem parse_print_node (sh : Shape) (dim : Nat) (m : Mesh) (parts : List (Str × Part))
@@ -1782,12 +1825,14 @@ theorem parse_print_node (sh : Shape) (dim : Nat) (m : Mesh) (parts : List (Str 
     (hs : supported sh (dim : Int) (dim : Int) = true)
     (hwf : m.wf sh dim = true)
     (h64 : ∀ s ∈ m.sizes, s < 2 ^ 64)
+    (hzb : zeroBelow m.sizes = false)
     (hp : ∀ np ∈ parts, PartOk dim np.1 np.2)
     (hsorted : parts.Pairwise (fun a b => strLt a.1 b.1 = true))
-    (hpt : ∀ p ∈ partitions, PartitionOk p) :
+    (hpt : ∀ p ∈ partitions, PartitionOk p)
+    (hmap : mapOutOfRange ⟨some m, parts, partitions⟩ = false) :
     parseMeshFile (printMeshFile sh dim { mesh := some m, parts := parts, partitions := partitions })
       = .ok sh dim { mesh := some m, parts := parts, partitions := partitions } :=
-  RT2.parse_print_of_NodeOk hs ⟨hwf, h64, fun np h => RT2.PartOk.toFull (hp np h), hsorted, hpt⟩
+  RT2.parse_print_of_NodeOk hs ⟨hwf, h64, fun np h => RT2.PartOk.toFull (hp np h), hsorted, hpt, hzb, hmap⟩
 
 /-- **Stage C1: parse ∘ print = id** for a file with a root mesh, mesh parts with mappings, own (full) topology
     and attribute sets, and partitions -/
@@ -1796,12 +1841,14 @@ theorem parse_print_node_full (sh : Shape) (dim : Nat) (m : Mesh) (parts : List 
     (hs : supported sh (dim : Int) (dim : Int) = true)
     (hwf : m.wf sh dim = true)
     (h64 : ∀ s ∈ m.sizes, s < 2 ^ 64)
+    (hzb : zeroBelow m.sizes = false)
     (hp : ∀ np ∈ parts, PartOkFull sh dim np.1 np.2)
     (hsorted : parts.Pairwise (fun a b => strLt a.1 b.1 = true))
-    (hpt : ∀ p ∈ partitions, PartitionOk p) :
+    (hpt : ∀ p ∈ partitions, PartitionOk p)
+    (hmap : mapOutOfRange ⟨some m, parts, partitions⟩ = false) :
     parseMeshFile (printMeshFile sh dim { mesh := some m, parts := parts, partitions := partitions })
       = .ok sh dim { mesh := some m, parts := parts, partitions := partitions } :=
-  RT2.parse_print_of_NodeOk hs ⟨hwf, h64, hp, hsorted, hpt⟩
+  RT2.parse_print_of_NodeOk hs ⟨hwf, h64, hp, hsorted, hpt, hzb, hmap⟩
 
 /-- **Stage C2: files without a root mesh.**  The written root markup carries no `mesh` attribute, so the first
     parse cannot pick a mesh type; the second-generation parse with the known type gives the node back. -/
@@ -1828,16 +1875,18 @@ theorem print_parse_print_node (sh : Shape) (dim : Nat) (m : Mesh) (parts : List
     (hs : supported sh (dim : Int) (dim : Int) = true)
     (hwf : m.wf sh dim = true)
     (h64 : ∀ s ∈ m.sizes, s < 2 ^ 64)
+    (hzb : zeroBelow m.sizes = false)
     (hp : ∀ np ∈ parts, PartOkFull sh dim np.1 np.2)
     (hsorted : parts.Pairwise (fun a b => strLt a.1 b.1 = true))
-    (hpt : ∀ p ∈ partitions, PartitionOk p) :
+    (hpt : ∀ p ∈ partitions, PartitionOk p)
+    (hmap : mapOutOfRange ⟨some m, parts, partitions⟩ = false) :
     ∀ sh' dim' n',
       parseMeshFile (printMeshFile sh dim { mesh := some m, parts := parts, partitions := partitions })
         = .ok sh' dim' n' →
       printMeshFile sh' dim' n' =
         printMeshFile sh dim { mesh := some m, parts := parts, partitions := partitions } := by
   intro sh' dim' n' h
-  rw [parse_print_node_full sh dim m parts partitions hs hwf h64 hp hsorted hpt] at h
+  rw [parse_print_node_full sh dim m parts partitions hs hwf h64 hzb hp hsorted hpt hmap] at h
   injection h with h1 h2 h3
   subst h1 h2 h3
   rfl
